@@ -34,6 +34,8 @@ def shards(tier, seed):
     for i in range(4):
         out.append({"name": f"generated{i}", "kind": "generated", "part": i, "parts": 4,
                     "reps": 6 if tier == "quick" else 60})
+    for i in range(2 if tier == "quick" else 6):
+        out.append({"name": f"node{i}", "kind": "node", "n": 120 if tier == "quick" else 1500})
     return out
 
 
@@ -248,12 +250,28 @@ def run_generated(cx, spec, rng):
             pass
 
 
+def run_node_workload(cx, spec, rng):
+    """The contracts sit on the real functions, so every answer the *node* builds while it serves scripted
+    peers (CEA, DWA, DPA, 5005/3007/3003/5012 error answers, application answers) is judged as well."""
+    from vf.checks import c07
+    run = c07.Run()
+    for s, b, script in c07.DIRECTED:
+        run.one(s, b, [(0, l) for l in script], 1)
+    for _ in range(spec["n"]):
+        nconn = rng.choice([1, 2])
+        script = [(rng.randrange(nconn), rng.choice(c07.LETTERS)) for _ in range(rng.randrange(2, 8))]
+        run.one(rng.choice(c07.STARTS), rng.choice(c07.BEHAVIOURS), script, nconn)
+    cx.evals += run.evals
+    cx.cov["node_histories_under_contract"] = run.evals
+    cx.hashes.update(run.hashes)
+
+
 def run_shard(spec):
     import logging
     logging.getLogger("diameter").setLevel(logging.CRITICAL)
     cx = Ctx(spec)
     rng = random.Random(h64("C20", spec["seed"], spec["name"]))
-    {"to_answer": run_to_answer, "generated": run_generated}[spec["kind"]](cx, spec, rng)
+    {"to_answer": run_to_answer, "generated": run_generated, "node": run_node_workload}[spec["kind"]](cx, spec, rng)
     return cx.result()
 
 
